@@ -72,6 +72,7 @@ IsoDirLegality(s, lvl) ==
     IF \/ Len(s) = 0
        \/ (lvl = 1 /\ Len(s) > 8)
        \/ (lvl \in {2, 3} /\ Len(s) > 207)
+       \/ (lvl < 4 /\ ~AllD1(s))
        \/ Len(s) > 255
        \/ Has(s, SLASH) \/ Has(s, 0)
     THEN "illegal"
